@@ -90,10 +90,17 @@ int main(int argc, char** argv) {
          // the flipped twin: a fresh object, a copy of the calculated original re-filled through the setters, or a long-lived object re-filled for every case (scan loop)
          const int twin = static_cast<int>(i % 3);
          static const char* const TWIN[3] = {"", "|twin=refilled-copy-of-original", "|twin=long-lived-object"};
-         MSSMNoFV_onshell m1 = gen::make_mssm(p, 1, +1);
+         // the light fermion masses are zero by default and may be supplied (SMINPUTS 21-24, 11, 13 of an input file): half of the cases carry them, which
+         // switches on the left-right mixing of the first two squark and slepton generations
+         const bool lightm = r.chance(0.5);
+         const double lm[5] = {0.0047 * r.U(0.5, 2), 0.0022 * r.U(0.5, 2), 0.096 * r.U(0.5, 2), 1.28 * r.U(0.5, 2), 0.000510998928 * r.U(0.5, 2)};
+         auto sm_in = [&](MSSMNoFV_onshell& m) { if (lightm) { m.get_physical().MFd = lm[0]; m.get_physical().MFu = lm[1]; m.get_physical().MFs = lm[2]; m.get_physical().MFc = lm[3]; m.get_physical().MFe = lm[4]; } };
+         auto make = [&](int flip) { MSSMNoFV_onshell m; sm_in(m); gen::fill_mssm(m, p, 1, flip); m.calculate_masses(); return m; };
+         c.i("light_fermion_masses_given", lightm); o.count(lightm ? "pairs with light fermion masses given" : "pairs with default (zero) light quark masses");
+         MSSMNoFV_onshell m1 = make(+1);
          static thread_local MSSMNoFV_onshell longlived;
-         if (twin == 2) { gen::fill_mssm(longlived, p, 1, +1); longlived.calculate_masses(); }   // (it holds the original point first, as a scan over sign choices would)
-         MSSMNoFV_onshell m2 = twin == 0 ? gen::make_mssm(p, 1, -1) : (twin == 1 ? m1 : longlived);
+         if (twin == 2) { sm_in(longlived); if (!lightm) { const MSSMNoFV_onshell def; longlived.get_physical().MFd = def.get_physical().MFd; longlived.get_physical().MFu = def.get_physical().MFu; longlived.get_physical().MFs = def.get_physical().MFs; longlived.get_physical().MFc = def.get_physical().MFc; longlived.get_physical().MFe = def.get_physical().MFe; } gen::fill_mssm(longlived, p, 1, +1); longlived.calculate_masses(); }   // (it holds the original point first, as a scan over sign choices would)
+         MSSMNoFV_onshell m2 = twin == 0 ? make(-1) : (twin == 1 ? m1 : longlived);
          if (twin != 0) { m2.get_problems().clear(); gen::fill_mssm(m2, p, 1, -1); m2.calculate_masses(); if (twin == 2) longlived = m2; }
          c.str("twin", twin == 0 ? "fresh" : TWIN[twin] + 6);
          if (m1.get_problems().have_problem() || m2.get_problems().have_problem()) { ++o.inconclusive; o.count("problem-flagged"); continue; }
